@@ -39,8 +39,11 @@ pub const INFO: Info = Info {
            (all residues of count mod pool size / slab size), every peptide with its own fragment fingerprint (distinct first- \
            and last-residue modification, varying length and sequence) so that an ion filed under another peptide index is visible; \
            min_ion_index absent / null / 0 / 1 / 2 / 3 / n-2 / n-1 / n / larger, ion_kinds absent / b,y / all six / singletons / \
-           random subsets, bucket_size absent / 0 / 1 / 3 / 5 / 8192 / 10000, three JSON renderings; non-trivial = at least one \
-           fragment stored",
+           random subsets, bucket_size absent / 0 / 1 / 3 / 5 / 8192 / 10000, three JSON renderings; \
+           isomer lists: 2..1200 peptides made of groups of 2..6 positional isomers (one sequence, k identical modifications on \
+           different eligible residues, all members given the same monoisotopic), N-terminal +42 vs +42 on the first / last residue vs \
+           C-terminal (equal mass), exact duplicates of one peptide, fingerprinted fillers; in the database's order (mass, sequence, \
+           modifications, nterm) and shuffled; pools 1, 2, 4, 16; non-trivial = at least one fragment stored",
     serial: false,
 };
 
@@ -283,6 +286,10 @@ fn emit_idxb(style: usize, min_idx: Option<usize>, kinds: &Option<Vec<usize>>, b
         .tag_if(threads.len() > 1, "ionidxb:several-pools")
         .tag_if(threads.iter().any(|&t| t > 1 && peps.len() % t != 0 && peps.len() > t), "ionidxb:count-not-divisible-by-pool")
         .tag_if(peps.len() >= 90, "ionidxb:hundreds-of-peptides")
+        .tag_if(peps.windows(2).any(|w| w[0].seq == w[1].seq && w[0].mono.to_bits() == w[1].mono.to_bits() && w[0].mods != w[1].mods),
+                "ionidxb:adjacent-same-sequence-same-mass-different-mods")
+        .tag_if(peps.windows(2).any(|w| w[0].seq == w[1].seq && w[0].mods == w[1].mods && w[0].nterm == w[1].nterm && w[0].cterm == w[1].cterm),
+                "ionidxb:adjacent-exact-duplicates")
         .tag_if(panics, "ionidxb:panicking-peptide")
         .nontrivial(!panics && stored > 0));
 }
@@ -322,6 +329,147 @@ fn config_json(style: usize, min_idx: Option<usize>, kinds: &Option<Vec<usize>>,
     Some(format!(
         "{{{nl}{ind}\"database\":{sp}{{{nl}{db}{nl}{ind}}},{nl}{ind}\"precursor_tol\":{sp}{{\"ppm\":{sp}[-10.0,{sp}10.0]}},{nl}{ind}\"fragment_tol\":{sp}{{\"ppm\":{sp}[-10.0,{sp}10.0]}},{nl}{ind}\"mzml_paths\":{sp}[\"unused.mzML\"]{nl}}}"
     ))
+}
+
+
+/// a group of positional isomers: one sequence, `k` identical modifications of mass `delta` on different
+/// eligible residues (every k-subset of the positions holding `site`), all given the SAME `monoisotopic`
+/// (the first member's; the others' own f32 sums differ from it by at most an ulp) — sequence + mass does
+/// not identify a member, only the modification vector does
+fn isomer_group(seq: &[u8], site: u8, k: usize, delta: f32, max: usize) -> Vec<Pep> {
+    let pos: Vec<usize> = (0..seq.len()).filter(|&i| seq[i] == site).collect();
+    let mut out: Vec<Pep> = Vec::new();
+    for mask in 0u32..(1u32 << pos.len()) {
+        if mask.count_ones() as usize != k {
+            continue;
+        }
+        let mut mods = vec![0.0f32; seq.len()];
+        for (b, &p) in pos.iter().enumerate() {
+            if (mask >> b) & 1 == 1 {
+                mods[p] = delta;
+            }
+        }
+        out.push(simple(seq, mods, None, None));
+        if out.len() == max {
+            break;
+        }
+    }
+    if let Some(m) = out.first().map(|p| p.mono) {
+        for p in out.iter_mut() {
+            p.mono = m;
+        }
+    }
+    out
+}
+
+/// N-terminal +42 versus +42 on the first residue (equal total mass), plus exact duplicates of one
+/// unmodified peptide (which legitimately share every ion)
+fn terminal_vs_residue(seq: &[u8], delta: f32) -> Vec<Pep> {
+    let n = seq.len();
+    let a = simple(seq, vec![0.0; n], Some(delta), None);
+    let mut m = vec![0.0f32; n];
+    m[0] = delta;
+    let mut b = simple(seq, m, None, None);
+    b.mono = a.mono;
+    let mut m2 = vec![0.0f32; n];
+    m2[n - 1] = delta;
+    let mut c = simple(seq, m2, None, None);
+    c.mono = a.mono;
+    let mut d = simple(seq, vec![0.0; n], None, Some(delta));
+    d.mono = a.mono;
+    vec![a, b, c, d]
+}
+
+/// `Parameters::reorder_peptides` order: monoisotopic (total_cmp), then `initial_sort`
+/// (sequence, modifications, nterm)
+fn db_order(peps: &mut Vec<Pep>) {
+    peps.sort_by(|a, b| {
+        a.mono
+            .total_cmp(&b.mono)
+            .then_with(|| a.seq.cmp(&b.seq))
+            .then_with(|| a.mods.partial_cmp(&b.mods).unwrap_or(std::cmp::Ordering::Equal))
+            .then_with(|| a.nterm.partial_cmp(&b.nterm).unwrap_or(std::cmp::Ordering::Equal))
+    });
+}
+
+const ISO_SEQS: [&[u8]; 8] = [b"MAMK", b"MAM", b"AMSMMTMK", b"SPEPSTYSK", b"MMMMK", b"GSAMPLEMK", b"TSTYSSTK", b"KMAKMAK"];
+
+/// a peptide list of `n` entries made of isomer groups (2..6 members), terminal-vs-residue variants,
+/// duplicates and fingerprinted fillers
+fn isomer_list(rng: &mut Rng, n: usize) -> (Vec<Pep>, usize) {
+    let mut peps: Vec<Pep> = Vec::new();
+    let mut groups = 0usize;
+    let mut filler = rng.below(40);
+    while peps.len() < n {
+        let room = n - peps.len();
+        let mut g: Vec<Pep> = match rng.below(8) {
+            0 => terminal_vs_residue(*rng.pick(&ISO_SEQS), 42.0106),
+            1 => {
+                // exact duplicates of the same (possibly modified) peptide
+                let p = fp_pep(rng.below(60));
+                vec![p.clone(), p.clone(), p]
+            }
+            2 => {
+                filler += 1;
+                vec![fp_pep(filler)]
+            }
+            _ => {
+                // lengthen the base sequence so that different groups have different masses
+                let base = *rng.pick(&ISO_SEQS);
+                let mut seq: Vec<u8> = base.to_vec();
+                for _ in 0..rng.below(4) {
+                    seq.insert(rng.below(seq.len()), *rng.pick(&[b'A', b'G', b'L', b'V', b'E']));
+                }
+                let (site, delta) = if seq.iter().filter(|&&c| c == b'M').count() >= 2 {
+                    (b'M', 15.9949f32)
+                } else if seq.iter().filter(|&&c| c == b'S').count() >= 2 {
+                    (b'S', 79.9663f32)
+                } else {
+                    (b'K', 42.0106f32)
+                };
+                let sites = seq.iter().filter(|&&c| c == site).count();
+                let k = 1 + rng.below(sites.saturating_sub(1).max(1).min(2));
+                isomer_group(&seq, site, k, delta, 2 + rng.below(5))
+            }
+        };
+        g.truncate(room);
+        if g.len() >= 2 {
+            groups += 1;
+        }
+        peps.extend(g);
+    }
+    (peps, groups)
+}
+
+fn gen_isomers(rng: &mut Rng, tier: Tier, emit: &mut dyn FnMut(Case)) {
+    let quick = tier == Tier::Quick;
+    // directed: two Met, one oxidation (M[+16]AMK / MAM[+16]K); phospho-isomers; every 2-subset of 4 Met
+    let two = isomer_group(b"MAMK", b'M', 1, 15.9949, 6);
+    emit_idxb(0, Some(0), &Some(vec![1, 4]), None, &[1], &two, "ionidxb:isomers-directed", emit);
+    emit_idxb(0, None, &None, None, &[1, 2, 4, 16], &two, "ionidxb:isomers-directed", emit);
+    emit_idxb(0, Some(1), &Some(vec![0, 1, 2, 3, 4, 5]), None, &[1, 4], &isomer_group(b"TSTYSSTK", b'S', 2, 79.9663, 6), "ionidxb:isomers-directed", emit);
+    emit_idxb(0, Some(0), &Some(vec![1, 4]), None, &[1, 2], &isomer_group(b"MMMMK", b'M', 2, 15.9949, 6), "ionidxb:isomers-directed", emit);
+    emit_idxb(0, Some(0), &Some(vec![1, 4]), None, &[1, 16], &terminal_vs_residue(b"KMAKMAK", 42.0106), "ionidxb:isomers-directed", emit);
+    let dup = fp_pep(3);
+    emit_idxb(0, Some(0), &Some(vec![1, 4]), None, &[1, 4], &[dup.clone(), dup.clone(), dup], "ionidxb:isomers-directed", emit);
+    // lists of 2..1200 peptides, in database order and shuffled, pools 1, 2, 4, 16
+    let sizes: &[usize] = if quick { &[2, 3, 4, 5, 6, 8, 13, 21, 40, 64, 100, 300, 1200] } else { &[2, 3, 4, 5, 6, 7, 8, 9, 13, 21, 40, 64, 100, 150, 300, 600, 1000, 1200] };
+    let reps = if quick { 2 } else { 12 };
+    let min_cycle: [Option<usize>; 4] = [Some(0), None, Some(1), Some(2)];
+    let kind_cycle: [Option<Vec<usize>>; 4] = [Some(vec![1, 4]), None, Some(vec![0, 1, 2, 3, 4, 5]), Some(vec![4, 1])];
+    let mut c = 0usize;
+    for &n in sizes {
+        for _ in 0..(if n >= 600 { 1 } else { reps }) {
+            let (mut peps, groups) = isomer_list(rng, n);
+            db_order(&mut peps);
+            let pools: &[usize] = if n >= 600 { &[1, 4] } else { &[1, 2, 4, 16] };
+            let tag: &'static str = if groups > 0 { "ionidxb:isomers-db-order" } else { "ionidxb:isomers-none" };
+            emit_idxb(c % 3, min_cycle[c % 4], &kind_cycle[(c / 2) % 4], None, pools, &peps, tag, emit);
+            rng.shuffle(&mut peps);
+            emit_idxb(0, min_cycle[(c + 1) % 4], &kind_cycle[c % 4], None, if n >= 600 { &[2, 16] } else { pools }, &peps, "ionidxb:isomers-shuffled", emit);
+            c += 1;
+        }
+    }
 }
 
 fn gen_idxb(rng: &mut Rng, tier: Tier, emit: &mut dyn FnMut(Case)) {
@@ -395,6 +543,7 @@ fn gen_idxb(rng: &mut Rng, tier: Tier, emit: &mut dyn FnMut(Case)) {
 
 pub fn gen(rng: &mut Rng, tier: Tier, emit: &mut dyn FnMut(Case)) {
     gen_idxb(&mut rng.fork(), tier, emit);
+    gen_isomers(&mut rng.fork(), tier, emit);
     let quick = tier == Tier::Quick;
     // ---------------------------------------------------------------- ions: directed
     emit(Case::new("ionconst 100".to_string()).tag("ionconst"));
